@@ -230,7 +230,7 @@ def generate(st):
             last_target = 'key:' + key
         elif r < cfg['p_rereg']:
             key = g.choice(keys)
-            via = g.choice(['args', 'args', 'obj', 'obj_with_holidays', 'obj_with_weekend'])
+            via = g.choice(['args', 'args', 'obj', 'obj_with_holidays', 'obj_with_weekend', 'only_hol', 'only_weekend'])
             old = current['key:' + key]
             c = _gen_config(g)
             if via == 'obj_with_holidays':
@@ -239,6 +239,11 @@ def generate(st):
             if via == 'obj_with_weekend':
                 nw = g.choice([w for w in WEEKENDS if w and w != old['weekend']] or [[5, 6]])
                 c = dict(old, weekend=nw)
+            if via in ('only_hol', 'only_weekend'):
+                # calendar(key, holidays) / calendar(key, weekend=...) and nothing else: everything not given is the documented
+                # default (weekend Sat/Sun, no holidays, 1900..2300) -- also when what IS given is an empty list
+                c = dict(old, hol=([] if g.random() < 0.5 else [h for h in c['hol'] if old['t0'] <= h <= old['t1']]) if via == 'only_hol' else [],
+                         weekend=[5, 6] if via == 'only_hol' else g.choice(WEEKENDS))
             if via == 'args' and g.random() < 0.3:
                 c = dict(old, hol=c['hol'])       # same range and weekend, other holidays
                 c['hol'] = [h for h in c['hol'] if old['t0'] <= h <= old['t1']]
@@ -326,6 +331,15 @@ def execute(trace, ctx=None):
                 if via == 'args' or tkey not in refs:
                     lib(lambda: calendar(key, holidays=hol, weekend=weekend, t0=t0, t1=t1), 'calendar(key, ...)')
                     refs[tkey] = Ref(hol, weekend, t0, t1, 'm')
+                elif via in ('only_hol', 'only_weekend'):
+                    from pyg_base._drange import TMIN, TMAX
+                    if via == 'only_hol':
+                        lib(lambda: calendar(key, hol), 'calendar(key, holidays)')
+                        res.probe('reregistration-with-holidays-only' + ('-empty' if not hol else ''))
+                    else:
+                        lib(lambda: calendar(key, weekend=weekend), 'calendar(key, weekend=...)')
+                        res.probe('reregistration-with-weekend-only' + ('-empty' if not weekend else ''))
+                    refs[tkey] = Ref(hol, weekend, TMIN, TMAX, 'm')
                 elif via == 'obj':
                     obj = Calendar(key, holidays=hol, weekend=weekend, t0=t0, t1=t1, adj=op.get('adj', 'm'))
                     lib(lambda: calendar(obj), 'calendar(calendar_object)')
@@ -361,7 +375,7 @@ def execute(trace, ctx=None):
                     continue
             t = _d(op['t'])
             if op['kind'] == 'edge':
-                if not (ref.t0 <= t <= ref.t1) or not ref.is_bday(t) or ref.long_run(t):
+                if not (ref.t0 <= t <= ref.t1) or not ref.is_bday(t) or ref.long_run(t) or ((ref.t1 - ref.t0).days > 40000 and k % 4):
                     continue
                 n, adj = op['n'], op.get('adj')
                 exp = ref.add(t, n, adj)
@@ -388,6 +402,8 @@ def execute(trace, ctx=None):
                 tl = datetime.date(t.year, t.month, t.day)
                 res.probe('query-date-as-date')
             q = op['kind']
+            if (ref.t1 - ref.t0).days > 40000 and (q not in ('is_bday', 'is_holiday', 'adjust', 'add', 'dt_bump') or abs(op.get('n', 0)) > 1 or k % 3 == 0):
+                continue            # a 400-year table costs half a second of real time: only the table-free queries on such a calendar
             fresh = target.startswith('key:') and registered_count.get(target, 0) > 1
             cold = not warmed.get(target)
             what = '%s.%s(%s)' % (target, q, op['t'])
